@@ -1282,7 +1282,11 @@ pub fn process_complete_version<T: Deref<Target = rusqlite::Connection> + Commit
 
     let mut impactful_changeset = vec![];
 
-    let mut last_rows_impacted = 0;
+    // crsql_rows_impacted() counts over the whole transaction, which may already hold
+    // earlier changesets of the same batch: start from where they left off
+    let mut last_rows_impacted: i64 = sp
+        .prepare_cached("SELECT crsql_rows_impacted()")?
+        .query_row((), |row| row.get(0))?;
 
     let mut changes_per_table = BTreeMap::new();
 
